@@ -295,7 +295,10 @@ def _beam_lineload(dim, timo, et, inclined, form, unknown, nL=3):
         val = q0
     elif form == "func":
         val = lambda x, y, z: q0 + q1 * (x * t[0] + y * t[1] + z * t[2])
-    else:
+    elif form == "array":
+        val = q0 + q1 * s[nodes]
+    else:     # "array_perm": the selection is not listed in ascending node number (far end first, rolled); values[i] belongs to nodes[i]
+        nodes = np.roll(np.asarray(nodes)[::-1], 1)
         val = q0 + q1 * s[nodes]
     q = (lambda ss: q0 + 0 * ss) if form == "const" else (lambda ss: q0 + q1 * ss)
     simu.add_lineLoad(nodes, [val], [unknown])
@@ -333,7 +336,7 @@ def ob_beam_lineload(dim, timo, inclined):
     n = 0
     unknowns = {1: ["x"], 2: ["x", "y", "rz"], 3: ["x", "y", "z", "rx", "ry", "rz"]}[dim]
     for et in ("SEG2", "SEG3"):
-        for form in ("const", "func", "array"):
+        for form in ("const", "func", "array", "array_perm"):
             for unknown in unknowns:
                 try:
                     R, Rex, M, Mex = _beam_lineload(dim, timo, et, inclined, form, unknown)
@@ -535,6 +538,11 @@ def ob_load(et, kind, seed):
         simu = _simu(mesh, th)
         simu.add_surfLoad(nodes_face, [arr], ["x"])
         check("nodal array", simu, 0, J0 * th, Jy * th, Jz * th)
+        # the same nodal array with the selection listed in another order (reversed, rolled): values[i] belongs to nodes[i]
+        perm = np.roll(np.arange(len(nodes_face))[::-1], 2)
+        simu = _simu(mesh, th)
+        simu.add_surfLoad(np.asarray(nodes_face)[perm], [np.asarray(arr)[perm]], ["x"])
+        check("nodal array, selection not sorted by node number", simu, 0, J0 * th, Jy * th, Jz * th)
         # stray nodes: add nodes that do not bound any loaded element (isolated nodes of the opposite face and one interior-ish node)
         stray = mesh.Nodes_Conditions(lambda x, y, z: (x == 0) & (y == 0))
         sel = np.unique(np.concatenate([nodes_face, stray[:1]]))
